@@ -381,7 +381,14 @@ func (d *BlockDetector) sortBlocksInReadingOrder(blocks []Block) []Block {
 	return blocks
 }
 
-// validateBlocks filters out invalid blocks
+// validateBlocks cleans up detected blocks.
+//
+// Empty blocks are removed. A block smaller than MinBlockWidth x MinBlockHeight
+// (a lone glyph, a bullet, a page number, any short line of a page with
+// scaled-down coordinates) is not reported as a block of its own, but its
+// fragments are still text of the page: the block is merged into the nearest
+// other block instead of being discarded. When only one block is left it is
+// kept whatever its size.
 func (d *BlockDetector) validateBlocks(blocks []Block) []Block {
 	var valid []Block
 
@@ -390,14 +397,44 @@ func (d *BlockDetector) validateBlocks(blocks []Block) []Block {
 		if len(block.Fragments) == 0 {
 			continue
 		}
+		valid = append(valid, block)
+	}
 
-		// Skip blocks that are too small
-		if block.BBox.Width < d.config.MinBlockWidth ||
-			block.BBox.Height < d.config.MinBlockHeight {
-			continue
+	// Merge blocks that are too small into the nearest other block
+	merged := false
+	for len(valid) > 1 {
+		small := -1
+		for i, block := range valid {
+			if block.BBox.Width < d.config.MinBlockWidth ||
+				block.BBox.Height < d.config.MinBlockHeight {
+				small = i
+				break
+			}
+		}
+		if small < 0 {
+			break
 		}
 
-		valid = append(valid, block)
+		target := -1
+		best := 0.0
+		for i := range valid {
+			if i == small {
+				continue
+			}
+			dist := bboxDistance(valid[small].BBox, valid[i].BBox)
+			if target < 0 || dist < best {
+				target, best = i, dist
+			}
+		}
+
+		valid[target] = d.mergeBlocks(valid[target], valid[small])
+		valid = append(valid[:small], valid[small+1:]...)
+		merged = true
+	}
+
+	if merged {
+		// Bounding boxes changed: restore reading order
+		valid = d.sortBlocksInReadingOrder(valid)
 	}
 
 	// Re-assign indices
@@ -406,6 +443,13 @@ func (d *BlockDetector) validateBlocks(blocks []Block) []Block {
 	}
 
 	return valid
+}
+
+// bboxDistance returns the distance between two boxes (0 when they touch or overlap)
+func bboxDistance(a, b model.BBox) float64 {
+	dx := max(max(a.X-(b.X+b.Width), b.X-(a.X+a.Width)), 0)
+	dy := max(max(a.Y-(b.Y+b.Height), b.Y-(a.Y+a.Height)), 0)
+	return dx + dy
 }
 
 // Helper functions
